@@ -40,13 +40,33 @@ def _gen_x(rng, shape, cfg):
     return rng.uniform(0.35, 0.95, size=shape)
 
 
-GENS = {"lb": _gen_lb, "ub": _gen_ub, "x0": _gen_x, "x": _gen_x}
+def _gen_x0(rng, shape, cfg):
+    return rng.uniform(-0.01, 0.01, size=shape) if cfg.get("local") else rng.uniform(0.35, 0.95, size=shape)
+
+
+GENS = {"lb": _gen_lb, "ub": _gen_ub, "x0": _gen_x0, "x": _gen_x}
 
 
 def _setup(vc, cfg):
     A = np.array(A_FAMILY[cfg["A"]], dtype=float)
     nf, ns = A.shape
     Ac = vc.const_array(A)
+    if cfg.get("local"):
+        # two or more surplus sources: concrete bounds and a target in a small symbolic neighbourhood of a concrete interior
+        # point, so that the acceptance pattern of the basic solutions is (almost) determined and the path set stays small
+        lb = vc.const_array(np.zeros(ns))
+        ub = vc.const_array(np.array([1.0, 1.5, 2.0, 1.25, 1.75][:ns]))
+        ctr = np.array([0.5, 0.75, 1.0, 0.5, 0.75][:ns])
+        dx0 = vc.array("x0", (ns,))
+        for k in range(ns):
+            vc.assume(vc.and_(vc.ge(dx0[k], -0.01), vc.le(dx0[k], 0.01)))
+        x0 = [ctr[k] + dx0[k] for k in range(ns)] if vc.symbolic else [float(ctr[k] + dx0[k]) for k in range(ns)]
+        b = np.array([sum(Ac[j, k] * x0[k] for k in range(ns)) for j in range(nf)], dtype=object if vc.symbolic else float)
+        if vc.symbolic:
+            from pyvc.sym import to_symarray
+
+            b = to_symarray(b)
+        return A, Ac, nf, ns, lb, ub, x0, b
     lb, ub = vc.array("lb", (ns,)), vc.array("ub", (ns,))
     for k in range(ns):
         vc.assume(vc.lt(lb[k], ub[k]))
@@ -137,7 +157,7 @@ def spaced(vc, cfg):
         vc.prove(f"row[{r}] reproduces the target", vc.all_(vc.eq(sum(Ac[j, k] * Xs[r, k] for k in range(ns)), b[j], scale=1.0) for j in range(nf)))
         vc.prove(f"row[{r}] within bounds", vc.all_(vc.and_(vc.ge(Xs[r, k], lb[k], scale=1.0), vc.le(Xs[r, k], ub[k], scale=1.0)) for k in range(ns)))
     if Xs.shape[0] > 1:
-        vc.canary("rows-identical", vc.eq(Xs[0, 0], Xs[1, 0]))
+        vc.canary("all-rows-identical", vc.all_(vc.eq(Xs[r, k], Xs[0, k]) for r in range(1, Xs.shape[0]) for k in range(ns)))
 
 
 def gate(vc, cfg):
@@ -257,6 +277,7 @@ def _ext_cfgs(tier):
 def _sp_cfgs(tier):
     out = [{"A": "2x3a", "n": 2}, {"A": "2x3b", "n": 3}]
     if tier != "quick":
+        out += [{"A": "2x4a", "n": 2, "local": True}]  # two surplus sources (about 10 min); quick covers them by a pinned native input
         out += [{"A": "2x3c", "n": n} for n in (4, 6, 10)] + [{"A": "3x4a", "n": 3}]
     return out
 
@@ -272,7 +293,9 @@ FC = ["dreye.api.convex._range_of_solutions", "dreye.api.convex._spaced_solution
 CONTRACTS = [
     Contract(P, "_range_of_solutions.extent", extent, _ext_cfgs, FC[:1], gens=GENS, native_samples=3, rtol=1e-7, atol=1e-8, max_paths=4000, task_timeout=900, doc=extent.__doc__,
              pinned=[({"A": "2x3float", "pinned": "vertex-target"}, {"lb": [0.0, 0.0, 0.0], "ub": [0.59, 1.12, 1.65], "x0": [0.59, 1.12, 1.65]})]),
-    Contract(P, "_spaced_solutions", spaced, _sp_cfgs, FC[:2], gens=GENS, native_samples=2, rtol=1e-6, atol=1e-6, max_paths=4000, task_timeout=900, doc=spaced.__doc__),
+    Contract(P, "_spaced_solutions", spaced, _sp_cfgs, FC[:2], gens=GENS, native_samples=2, rtol=1e-6, atol=1e-6, max_paths=4000, task_timeout=1500, doc=spaced.__doc__,
+             pinned=[({"A": "2x4a", "n": 3, "local": True, "pinned": "two-surplus"}, {"x0": [0.004, -0.006, 0.002, 0.009]}),
+                     ({"A": "3x5a", "n": 2, "pinned": "two-surplus-3x5"}, {"lb": [0, 0, 0, 0, 0], "ub": [1.0, 1.5, 2.0, 1.25, 1.75], "x0": [0.5, 0.75, 1.0, 0.5, 0.75]})]),
     Contract(P, "range_of_solutions.gate", gate, _gate_cfgs, FC[2:] + ["dreye.api.utils.transform_values"], native_samples=0, doc=gate.__doc__),
     Contract(P, "estimator.range_of_solutions-dispatch", estimator_dispatch, lambda t: [{}], ["dreye.api.estimator.ReceptorEstimator.range_of_solutions"], native_samples=0, doc=estimator_dispatch.__doc__),
 ]
